@@ -819,3 +819,8 @@ where
         self.iter()
     }
 }
+
+// Verification hook: compiled only by `cargo kani` (cfg(kani)); see /verif/MANIFEST.json.
+#[cfg(kani)]
+#[path = "/verif/units/kx/rustemo/glr_gss.rs"]
+mod verif_kani_glr_gss;
